@@ -81,6 +81,9 @@ def run(ck: Check):
         "translator/py2gallina.py (validated on this run by evaluating the generated functions in Coq against the real Python)",
         "model/Murmur2Java.v: hand transcription of Kafka's Utils.murmur2 over signed int32, tied to the real Java client only by the six literals pinned in tests/test_partitioner.py",
         "random.choice(seq) modelled as seq[pick mod len(seq)] for an arbitrary integer pick",
+        "AIOKafkaProducer._partition / ClusterMetadata.partitions_for_topic (the list handed to the partitioner) are "
+        "not in the Coq model: that the list is sorted by partition id is checked end to end under the simulator "
+        "with Metadata replies in shuffled partition order",
     ]
     ck.cov["rule"] = ("keys: every byte string of length 0..2 (thorough; quick: lengths 0..1 and a sample of "
                       "length 2), tail lengths 0..3 x every high-bit pattern after 0..2 blocks, random keys "
@@ -155,6 +158,42 @@ def run(ck: Check):
                                  {"kind": "unkeyed", "all_partitions": allp, "available": avail,
                                   "pick": pick, "impl": got}, signature="unkeyed-unavailable")
     ck.log(f"search: {len(allk) + len(keys) + len(parts)} evaluations, {bad} disagreement(s) with the Java transcription")
+
+    # --- (2b) end to end through the real producer: Metadata replies in shuffled partition order
+    cases = []
+    for i in range(ck.n(10, 80)):
+        n = rng.choice([2, 3, 5, 8, 13, 32])
+        ks = []
+        for _ in range(ck.n(25, 60)):
+            ks.append(None if rng.random() < 0.2 else list(rng.choice(keys)[:64]))
+        nl = rng.choice([0, 0, 1, 2])
+        cases.append({"seed": rng.randrange(1 << 30), "brokers": rng.choice([1, 2, 3]), "partitions": n,
+                      "keys": ks, "leaderless": rng.sample(range(n), min(nl, n - 1))})
+    e2e = run_impl("c17_e2e_impl.py", {"cases": cases}, timeout=900, env={"AIOKAFKA_NO_EXTENSIONS": "1"})["out"]
+    nb = 0
+    for c, r in zip(cases, e2e):
+        for key, rep, land in zip(c["keys"], r["reported"], r["landed"]):
+            ck.count(key=("e2e", c["seed"], None if key is None else bytes(key)), nontrivial=key is not None)
+            if key is not None:
+                want = java_partition(bytes(key), c["partitions"])
+                if want in c["leaderless"]:
+                    continue        # the partition has no leader: the record cannot be delivered (not C17's business)
+                if land != want or rep != want:
+                    nb += 1
+                    if nb <= 5:
+                        ck.violation(f"keyed record landed in partition {land} (reported {rep}); the Java client sends it to {want}",
+                                     {"kind": "e2e", "case": {k: v for k, v in c.items() if k != "keys"}, "key": key,
+                                      "landed": land, "reported": rep, "java": want},
+                                     signature=f"e2e:{bytes(key).hex()[:30]}:{c['partitions']}")
+            else:
+                if isinstance(rep, int) and rep in c["leaderless"] and len(c["leaderless"]) < c["partitions"]:
+                    nb += 1
+                    if nb <= 5:
+                        ck.violation(f"unkeyed record sent to partition {rep}, which had no leader while others were available",
+                                     {"kind": "e2e-unkeyed", "case": {k: v for k, v in c.items() if k != "keys"}, "reported": rep},
+                                     signature="e2e-unkeyed-unavailable")
+    ck.extra["e2e_cases"] = len(cases)
+    ck.log(f"end-to-end: {sum(len(c['keys']) for c in cases)} records through the real producer, {nb} misplaced")
 
     # --- (3) translator validation: generated Gallina vs real Python on the same inputs
     if ok_t:
